@@ -4,7 +4,8 @@ Property theorems only (helper lemmas in Proofs/PyConvText.lean, PyConvMarker.le
 PyConvRange.lean, PyConvNorm.lean, PyConvGpc.lean, PyConvPoetry.lean, PyConvLeaf.lean,
 PyConvSplit.lean, PyConvShape.lean, PyConvSplitSem.lean, PyConvSplitSound.lean, PyConvIn.lean,
 PyConvAlts.lean, PyConvGpcAlts.lean, PyConvLeafAlts.lean, PyConvComma.lean, PyConvSplitE.lean,
-PyConvSplitSoundE.lean, PyConvNotIn.lean, PyConvDev*.lean, PyConvWild*.lean, PyConvPair*.lean, PyConvFull*.lean).
+PyConvSplitSoundE.lean, PyConvNotIn.lean, PyConvDev*.lean, PyConvWild*.lean, PyConvPair*.lean, PyConvFull*.lean,
+PyConvOne*.lean).
 
 Vocabulary.  `EnvPy E X Y Z`: the environment `E` has `python_version = "X.Y"` and
 `python_full_version = "X.Y.Z"` (all of `X Y Z : Nat`, unbounded); `pyV X Y Z` is the version `X.Y.Z`.
@@ -26,6 +27,7 @@ import PoetryVerif.Proofs.PyConvFullLL
 import PoetryVerif.Proofs.PyConvNestedBoundary
 import PoetryVerif.Proofs.PyConvNamed
 import PoetryVerif.Proofs.PyConvWildNe
+import PoetryVerif.Proofs.PyConvOneObstruction
 
 set_option linter.unusedSimpArgs false
 set_option linter.unusedVariables false
@@ -485,10 +487,13 @@ assumed of the environment — the marker read back has python leaves only and v
 This is the boundary of `C11_createNested_poetry_full_statement` as proved.  Outside it:
 * a single version of precision below 3 (outside `PyDomVC`): the statement is false,
   `counterexample_single_version_precision_lt_3`;
-* a range with a one-component bound (`>=3`, `^3`; inside `PyDomVC`): `python_version >= "3"` / `< "4"` leaves, for
-  which C07 has no leaf specification; the reference value of the printed text is exact (`createNested_exact`), the
-  statement through `parse_marker` is `createNested_poetry_partial` (relative to the leaf specification), and the
-  correspondence finds no disagreement there;
+* a range with a one-component bound (`>=3`, `^3`, `^3.8`; inside `PyDomVC`): proved on the second decidable
+  domain `nestedDomain1`, `createNested_poetry_one_component`; what remains open are the constraints that mix a
+  one-component bound with an exclusive lower / inclusive upper bound, a three-component bound, or a lower bound
+  `a.b` meeting an upper bound `a.(b+1)`.  No leaf specification covers them: on one-component literals the
+  merge is unsound as soon as `==` appears (`counterexample_one_component_union`); the reference value of the
+  printed text is exact there (`createNested_exact`), the statement through `parse_marker` is
+  `createNested_poetry_partial`, and the correspondence finds no disagreement;
 * dev-release bounds (wildcards `X.*`, `X.Y.*`, `!=X.Y.*`; outside `PyDomVC`): `createNested_wildcard_partial`,
   `createNested_wildcard1_partial`, `createNested_excluded_wildcard_partial`, relative to the leaf specification. -/
 theorem createNested_poetry {E : Env} {X Y Z : Nat} (hE : EnvPy E X Y Z) (c : VC) (hdom : nestedDomain c = true)
@@ -503,6 +508,66 @@ example : nestedDomain (.single (.rng ⟨some (finalV [3, 8]), some (finalV [3, 
     nestedDomain (.single (.rng ⟨some (finalV [3]), none, true, false⟩)) = false ∧
     PyDomVC (.single (.rng ⟨some (finalV [3]), none, true, false⟩)) = true := by
   refine ⟨by decide, by decide, by decide, by decide⟩
+
+/-- **`create_nested_marker` then `parse_marker` and `validate`, on the second decidable domain** `nestedDomain1 c`:
+`PyDomVC c`, every lower bound inclusive and every upper bound exclusive, all of one or two components (`>=3`, `^3`,
+`^3.8`, `>=2.7,<3 || >=3.5,<4`), and no lower bound `a.b` together with an upper bound `a.(b+1)` anywhere in the
+constraint (so `~3.8` belongs to the first domain only).  On every environment of interpreter `X.Y.Z` the marker
+read back consists of leaves `python_version >= "L"` / `python_version < "H"` (L, H of one or two components) and
+validates to exactly `allows(X.Y.Z)`.
+
+The leaf specification behind it (`leafSpec_oneG`) is proved outright: `_merge_single_markers` on two such leaves
+returns Empty, Any or one of its operands -- the re-built leaf, the candidate `python_version == "a.b"` and the
+union of the conversions are shown not to be reached -- using that `get_python_constraint_from_marker` of
+`python_version >= "3"` / `< "4"` is literally the stored range. -/
+theorem createNested_poetry_one_component {E : Env} {X Y Z : Nat} (hE : EnvPy E X Y Z) (c : VC)
+    (hdom : nestedDomain1 c = true) (txt : String) (m : M)
+    (ht : createNestedMarker "python_version" c = .ok txt) (hm : parseMarker txt = .ok m) :
+    M.Good OneCompLeaf m ∧ M.validate E m = .ok (c.allowsPlain (pyV X Y Z)) :=
+  createNested_domain1 hE c hdom txt m ht hm
+
+/-- the second domain is decidable: `>=3`, `^3.8` = `>=3.8,<4` and `>=2.7,<3 || >=3.5,<4` are inside;
+`~3.8` = `>=3.8,<3.9` (first domain) and `>3` are not -/
+example : nestedDomain1 (.single (.rng ⟨some (finalV [3]), none, true, false⟩)) = true ∧
+    nestedDomain1 (.single (.rng ⟨some (finalV [3, 8]), some (finalV [4]), true, false⟩)) = true ∧
+    nestedDomain1 (.union [.rng ⟨some (finalV [2, 7]), some (finalV [3]), true, false⟩,
+      .rng ⟨some (finalV [3, 5]), some (finalV [4]), true, false⟩]) = true ∧
+    nestedDomain1 (.single (.rng ⟨some (finalV [3, 8]), some (finalV [3, 9]), true, false⟩)) = false ∧
+    nestedDomain (.single (.rng ⟨some (finalV [3, 8]), some (finalV [3, 9]), true, false⟩)) = true ∧
+    nestedDomain1 (.single (.rng ⟨some (finalV [3]), none, false, false⟩)) = false := by
+  refine ⟨by decide, by decide, by decide, by decide, by decide, by decide⟩
+
+/-- **the leaf specification on `python_version >= "L"` / `python_version < "H"` leaves**, L in `Lo`, H in `Hi`,
+of one or two components, when no `a.b` of `Lo` meets an `a.(b+1)` of `Hi`: equal leaves have equal truth, and a
+successful `_merge_single_markers` stays in the fragment and means the conjunction / disjunction -- on every
+environment whose `python_version` is `X.Y`. -/
+theorem leaf_specification_one_component {Lo Hi : List Nat → Prop} (hN : NoAdj Lo Hi) {E : Env} {X Y : Nat}
+    (hE : E.get? "python_version" = some (relText [X, Y])) : LeafSpec (leafEval E) (OneG Lo Hi) :=
+  leafSpec_oneG hN hE
+
+/-- **a one-component `python_version ==` leaf makes the union unsound** (why the leaf specification stops at the
+operators `>=` and `<` on one-component literals): the leaves are the ones the constructor builds for
+`python_version == "3"`, `>= "3.2"`, `>= "3"`; `_merge_single_markers` unites the first two into the third (the
+union of the ranges is not simple, so the conversions are united, and `== "3"` is converted to `>=3,<4`); on
+CPython 3.1.0 both operands are false and the result is true.  Such an `==` leaf is itself the result of a merge:
+`python_version >= "3" and python_version <= "3.0"` gives `python_version == "3"`.  The real code agrees on every
+step (`parse_marker('python_version == "3"').union(parse_marker('python_version >= "3.2"'))`). -/
+theorem counterexample_one_component_union :
+    mkSingle "python_version" "==3" false = .ok oneEq3 ∧ mkSingle "python_version" ">=3.2" false = .ok oneGe32 ∧
+    mkSingle "python_version" ">=3" false = .ok oneGe3 ∧ mkSingle "python_version" "<=3.0" false = .ok oneLe30 ∧
+    mergeLeaves (.single oneEq3) (.single oneGe32) false = .ok (some (.leaf (.single oneGe3))) ∧
+    (Leaf.single oneEq3).validate env31 = .ok false ∧ (Leaf.single oneGe32).validate env31 = .ok false ∧
+    (Leaf.single oneGe3).validate env31 = .ok true ∧
+    mergeLeaves (.single oneGe3) (.single oneLe30) true = .ok (some (.leaf (.single oneEq3))) :=
+  ⟨one_mk.1, one_mk.2.2.2, one_mk.2.1, one_mk.2.2.1, one_merge_or, one_validate.1, one_validate.2.1,
+    one_validate.2.2, one_merge_and⟩
+
+/-- **hence no leaf specification** (C07's `LeafSpec`: a successful merge means the conjunction / disjunction and
+stays in the domain) **exists on any set of leaves containing `python_version >= "3"`, `<= "3.0"` and `>= "3.2"`**,
+already for the single environment CPython 3.1.0. -/
+theorem no_leaf_specification_one_component (G : Leaf → Prop) (h1 : G (.single oneGe3))
+    (h2 : G (.single oneLe30)) (h3 : G (.single oneGe32)) : ¬ LeafSpec (leafEval env31) G :=
+  no_leafSpec_one G h1 h2 h3
 
 /-- **`<X.Y || >X.Y` is not `python_version != "X.Y"`** (what a shortcut for meeting ranges must not emit): the text
 printed is `(python_version < "X.Y") or (python_full_version > "X.Y.0")`, and the marker read back excludes `X.Y.0`
